@@ -65,10 +65,26 @@ pub fn gen(ctx: &Ctx) -> Vec<Value> {
                 op["as"] = json!(*x.pick(&["newtype_struct", "some"]));
             }
         }
-        if x.chance(1, 25) {
+        if x.chance(1, 12) {
             let op = *x.pick(&["ser", "ser_owned", "extend"]);
-            let as_ = *x.pick(&["not:i32", "not:bool", "not:str", "not:map", "not:struct", "not:unit_variant"]);
+            // `extend` treats a unit / None as one null record (not generated here); `Serializer` refuses every scalar
+            let as_ = if op == "extend" {
+                *x.pick(&["not:i32", "not:bool", "not:str", "not:map", "not:struct", "not:unit_variant"])
+            } else {
+                *x.pick(&[
+                    "not:i32", "not:bool", "not:str", "not:map", "not:struct", "not:unit_variant", "not:none", "not:some", "not:unit",
+                    "not:unit_struct", "not:bytes", "not:char", "not:f32", "not:f64", "not:i8", "not:i16", "not:i64", "not:u8", "not:u16",
+                    "not:u32", "not:u64", "not:struct_variant",
+                ])
+            };
             ops.push(json!({"op": op, "as": as_, "rows": []}));
+        }
+        if ops.last().map(|o| o["op"] == "build").unwrap_or(false) && x.chance(1, 25) {
+            // errors made by the USER of the crate: a `Serialize` impl that fails with `S::Error::custom` under `push`, and
+            // the public constructors `Error::custom` / `Error::custom_from` / `serde::de::Error::custom`
+            let via = *x.pick(&["ser", "ser", "custom", "custom_from", "de"]);
+            let text = *x.pick(&["boom", "two\nlines", "ünï 😀", "", "trailing space "]);
+            ops.push(json!({"op": "user_error", "via": via, "text": text}));
         }
         out.push(json!({"id": format!("hist-{c:06}"), "seed": sub, "schema": schema, "ctor": ctor, "ops": ops}));
     }
@@ -90,6 +106,16 @@ fn wrap(as_: &str, rows: &[Value]) -> Value {
         "not:map" => json!({"k": "map", "e": []}),
         "not:struct" => json!({"k": "struct", "n": "Batch", "f": []}),
         "not:unit_variant" => json!({"k": "unit_variant", "n": "Batch", "i": 0, "vn": "Rows"}),
+        "not:none" => json!({"k": "none"}),
+        "not:some" => json!({"k": "some", "v": {"k": "i32", "v": 7}}),
+        "not:unit" => json!({"k": "unit"}),
+        "not:unit_struct" => json!({"k": "unit_struct", "n": "Batch"}),
+        "not:bytes" => json!({"k": "bytes", "v": "00ff"}),
+        "not:char" => json!({"k": "char", "v": 97}),
+        "not:f32" => json!({"k": "f32", "bits": 0}),
+        "not:f64" => json!({"k": "f64", "bits": 0}),
+        "not:i8" | "not:i16" | "not:i64" | "not:u8" | "not:u16" | "not:u32" | "not:u64" => json!({"k": &as_[4..], "v": 7}),
+        "not:struct_variant" => json!({"k": "struct_variant", "n": "Batch", "i": 0, "vn": "Rows", "f": []}),
         _ => json!({"k": "seq", "v": rows}),
     }
 }
@@ -113,6 +139,15 @@ fn schema_of(fields: &[marrow::datatypes::Field]) -> Option<serde_arrow::schema:
     })
     .ok()
     .flatten()
+}
+
+/// a record whose `Serialize` impl fails on its own account
+struct Failing<'a>(&'a str);
+
+impl Serialize for Failing<'_> {
+    fn serialize<S: serde::Serializer>(&self, _: S) -> Result<S::Ok, S::Error> {
+        Err(<S::Error as serde::ser::Error>::custom(self.0))
+    }
 }
 
 pub fn exec(input: &Value) -> Value {
@@ -164,6 +199,15 @@ pub fn exec(input: &Value) -> Value {
                         builder = b;
                     }
                     r
+                }
+                "user_error" => {
+                    let text = op["text"].as_str().unwrap().to_string();
+                    match op["via"].as_str().unwrap() {
+                        "ser" => outcome::run_sa(|| builder.push(&Failing(&text)).map(|_| Value::Null)),
+                        "custom" => outcome::run_sa(|| Err(serde_arrow::Error::custom(text.clone()))),
+                        "custom_from" => outcome::run_sa(|| Err(serde_arrow::Error::custom_from(text.clone(), std::fmt::Error))),
+                        _ => outcome::run_sa(|| Err(<serde_arrow::Error as serde::de::Error>::custom(&text))),
+                    }
                 }
                 "build" => {
                     let r = outcome::run_sa(|| builder.to_marrow().map(|arrs| Value::Array(arrs.iter().map(dump::array_to_json).collect())));
